@@ -688,6 +688,13 @@ class Interp:
             for f in fin:
                 acc.update(f.atoms)
             raise NeedCases(sorted(acc))
+        if getattr(self, "assume_fn_nonzero", False) and const == 0:
+            ats = set()
+            for f in forms:
+                ats.update(f.atoms())
+            if ats and all(isinstance(self.atoms.names[a], tuple) and self.atoms.names[a][0] == "fn" for a in ats):
+                self.st.assumed.append(f"an uninterpreted check value is not 0 ({label})")
+                return False
         eqs = [f ^ b for f, b in zip(forms, cb)]
         status = self.st.lin.implied(eqs)
         if status == "true":
